@@ -19,7 +19,7 @@ from ..rules import ncallee, norm
 META = {
     "level": "other",
     "technique": "inter-procedural taint (MIR def-use, param/return/struct-field summaries to a fixpoint) from read primitives to allocation-size / checked-arithmetic / constant-index sinks with dominance-based sanitiser recognition; call-graph cycle detection",
-    "claim": "Decides, for every function reachable from the parse entry points of all ten crates, that no input-derived value sizes an allocation, feeds overflow-checked arithmetic, or indexes a possibly-empty buffer without a bound check on its path. Sites that do are genuine violations (each listed known finding carries a reproducing input). Does not prove every bounds check infeasible, nor bounded running time of data-dependent loops. Also: F input-derived index into a fixed-size array (static bound or per-leaf clamp), G cyclic probe loops wrap-exit, H `continue` in a `while` only after progress, I clamped-length vector never indexed by an unclamped counter, C2 add/multiply of two input fields at their read width. Wave 5: J index guards are exclusive; every pub parse*/open*/read*/load*/list*/from_bytes/decompress* fn is a root; argument sanitisation is strict (integer-typed relation), lower-bound tests bound nothing, a subtraction's two operands must have been compared with each other; values looked up in a table are as untrusted as the table. Wave 6: count x element-size products checked at 32 bits (C3) as well as at the read width. Wave 7: constant-range slices are covered by a length guard at least as long (K); clamp constants of an index fit the indexed constant table (L); stream decoders are drained through Take (M); `x - K` needs a lower bound on the taken branch; parameter / slice-element operands count at their own width and both operands of a sum must be bounded; an index check does not bound the element; lazy record accessors are roots.",
+    "claim": "Decides, for every function reachable from the parse entry points of all ten crates, that no input-derived value sizes an allocation, feeds overflow-checked arithmetic, or indexes a possibly-empty buffer without a bound check on its path. Sites that do are genuine violations (each listed known finding carries a reproducing input). Does not prove every bounds check infeasible, nor bounded running time of data-dependent loops. Also: F input-derived index into a fixed-size array (static bound or per-leaf clamp), G cyclic probe loops wrap-exit, H `continue` in a `while` only after progress, I clamped-length vector never indexed by an unclamped counter, C2 add/multiply of two input fields at their read width. Wave 5: J index guards are exclusive; every pub parse*/open*/read*/load*/list*/from_bytes/decompress* fn is a root; argument sanitisation is strict (integer-typed relation), lower-bound tests bound nothing, a subtraction's two operands must have been compared with each other; values looked up in a table are as untrusted as the table. Wave 6: count x element-size products checked at 32 bits (C3) as well as at the read width. Wave 7: constant-range slices are covered by a length guard at least as long (K); clamp constants of an index fit the indexed constant table (L); stream decoders are drained through Take (M); `x - K` needs a lower bound on the taken branch; parameter / slice-element operands count at their own width and both operands of a sum must be bounded; an index check does not bound the element; lazy record accessors are roots. Wave 8: N: operations that panic on 0 (/, %, ilog, div_ceil, chunks..) on input values need lower-bound evidence; O: an index guard compares with the indexed collection's own length.",
     "note": "Trusted: rustc MIR; the read-primitive table (byteorder, from_le_bytes, crate ReadExt traits, binrw read_*). Sanitiser recognition is deliberately generous (any dominating ordered comparison on the value, an ancestor or the same field), so a flagged site has no bound check at all on its path.",
     "assumptions": ["dependency decoders (flate2, bzip2, lzma-rs, pklib, image) are total", "allocation proportional to the actual input length is acceptable"],
     "explanation": "Taint sources: results of read primitives and fields of structs filled from them; sinks: Vec/String/BytesMut capacity and length operands, Assert(Overflow) operands, constant-index bounds checks; scope: call-graph closure of the public parse/open/read entry points.",
